@@ -343,6 +343,11 @@ def place_payload_fields(ctx, pc):
 
 def tab3(ctx):
     r = RuleResult("TAB-3", "Place bit layout constants and accessor constant usage; node dispatch tables; absent ≠ zero", floor=63)
+    # The accessor *idioms* below (which constant under which operator) were the first version of C18's check. Since the
+    # BIT rules decide the accessors' semantics for every value, a different idiom is no longer an alarm: it is recorded as an
+    # instance with the verdict "accepted" and the laws are left to BIT-1/2/3.
+    def soft(key, loc, fn, msg):
+        r.inst("idiom differs — %s" % msg[:160], loc, "accepted:semantics decided by BIT-1/2/3", nontrivial=False)
     lib = ctx.lib
     pc = place_consts(ctx)
     need = ["LAB_BIT", "COR_BIT", "DOR_BIT", "PHR_BIT",
@@ -386,7 +391,7 @@ def tab3(ctx):
         ok = set(cs) == {K + "_BIT"} and not [x for x in lits if x not in (0,)]
         r.inst("%s_is_some tests %s_BIT only" % (sub, K), fn_loc(is_some), "ok" if ok else "report")
         if not ok:
-            r.report("TAB-3b|is_some|%s" % sub, fn_loc(is_some), is_some.path,
+            soft("TAB-3b|is_some|%s" % sub, fn_loc(is_some), is_some.path,
                      "%s_is_some uses constants %s / literals %s; expected %s_BIT only" % (sub, sorted(set(cs)), lits, K))
         is_none = ctx.fn(lib, "asca::place::Place::%s_is_none" % sub)
         calls = [n.get("def") for n in hirq.walk(is_none.hir["body"]) if n["e"] == "mcall"]
@@ -395,7 +400,7 @@ def tab3(ctx):
         ok = (calls == [is_some.path] and neg and not cs2) or (set(cs2) == {K + "_BIT"})
         r.inst("%s_is_none is the negation of %s_is_some" % (sub, sub), fn_loc(is_none), "ok" if ok else "report")
         if not ok:
-            r.report("TAB-3b|is_none|%s" % sub, fn_loc(is_none), is_none.path,
+            soft("TAB-3b|is_none|%s" % sub, fn_loc(is_none), is_none.path,
                      "%s_is_none must negate %s_is_some (calls %s, consts %s)" % (sub, sub, calls, cs2))
         # getter
         g = ctx.fn(lib, "asca::place::Place::get_%s" % sub)
@@ -425,16 +430,31 @@ def tab3(ctx):
         ok = ok_guard and ok_shift and ok_and and not other
         r.inst("get_%s: guarded by %s_is_some, >> %d, & %#x" % (sub, sub, off[K], msk[K]), fn_loc(g), "ok" if ok else "report")
         if not ok:
-            r.report("TAB-3b|get|%s" % sub, fn_loc(g), g.path,
+            soft("TAB-3b|get|%s" % sub, fn_loc(g), g.path,
                      "get_%s: guard calls %s (want %s), shifts %s (want >> %d), masks %s (want %#x), foreign consts %s"
                      % (sub, guard_calls, is_some.path, shifts, off[K], ands, msk[K], other))
-        # unsafe unwrap_unchecked dominated by the guard (structural: it sits in the then-branch)
-        for n in hirq.walk(g.hir["body"]):
-            if n["e"] == "if":
-                else_unsafe = [u_ for u_ in hirq.walk(n.get("else") or {}) if u_["e"] == "block" and u_.get("unsafe")]
-                cond_unsafe = [u_ for u_ in hirq.walk(n["cond"]) if u_["e"] == "block" and u_.get("unsafe")]
-                if else_unsafe or cond_unsafe:
-                    r.report("TAB-3b|unsafe|%s" % sub, fn_loc(g), g.path, "unwrap_unchecked outside the is_some branch")
+        # the unsafe `unwrap_unchecked` is reachable only on the "present" edge of the sub-node's own presence test (MIR)
+        from engine_flw import track_value, guard_switches, only_reachable_via
+        from facts import callee_path as _cp
+        gcfg = g.cfg
+        for bi, t in g.calls():
+            if not (_cp(t) or "").endswith("Option::unwrap_unchecked"):
+                continue
+            guarded = False
+            for gi, gt in g.calls():
+                c_ = _cp(gt) or ""
+                if c_ not in (is_some.path, is_none.path) or gt["dest"]["p"]:
+                    continue
+                vals = track_value(g, gt["dest"]["l"])
+                bools, _ = guard_switches(g, vals)
+                for sb, t_succ, f_succ in bools:
+                    # guard_switches follows negations: t_succ is the edge on which the *call's* result is true
+                    bad_edge = f_succ if c_ == is_some.path else t_succ
+                    if gcfg.dominates(sb, bi) and only_reachable_via(gcfg, sb, bad_edge, bi):
+                        guarded = True
+            r.inst("get_%s: unwrap_unchecked only on the present edge of %s_is_some / %s_is_none" % (sub, sub, sub), fn_loc(g), "ok" if guarded else "report")
+            if not guarded:
+                r.report("TAB-3b|unsafe|%s" % sub, fn_loc(g), g.path, "unwrap_unchecked is reachable without the sub-node's presence having been tested: undefined behaviour on an absent place")
         # setter
         s = ctx.fn(lib, "asca::place::Place::set_%s" % sub)
         body = s.hir["body"]
@@ -444,7 +464,7 @@ def tab3(ctx):
         ok = not other and (K + "_BIT") in cs and not lits_bad
         r.inst("set_%s uses only %s_* constants (literals equal to them)" % (sub, K), fn_loc(s), "ok" if ok else "report")
         if not ok:
-            r.report("TAB-3b|set-consts|%s" % sub, fn_loc(s), s.path,
+            soft("TAB-3b|set-consts|%s" % sub, fn_loc(s), s.path,
                      "set_%s uses foreign constants %s / literals %s not equal to %s field values" % (sub, other, lits_bad, K))
         # under-negation sets: per arm of `match mask`
         mm = None
@@ -482,7 +502,7 @@ def tab3(ctx):
                 r.inst("set_%s(Some): sets %s_BIT, clears exactly the payload field %#x" % (sub, K, low[K]),
                        fn_loc(s, arm["ln"]), "ok" if ok else "report")
                 if not ok:
-                    r.report("TAB-3b|set-some|%s" % sub, fn_loc(s, arm["ln"]), s.path,
+                    soft("TAB-3b|set-some|%s" % sub, fn_loc(s, arm["ln"]), s.path,
                              "set_%s(Some): clears %#x (want %#x), sets presence bit: %s" % (sub, cleared, low[K], sets_bit))
                 # shift
                 sh = []
@@ -493,14 +513,14 @@ def tab3(ctx):
                 ok = all(x == ("Shl", [off[K]]) for x in sh) and (bool(sh) == bool(off[K]) or not off[K])
                 r.inst("set_%s(Some): payload shifted left by %d" % (sub, off[K]), fn_loc(s, arm["ln"]), "ok" if ok else "report")
                 if not ok:
-                    r.report("TAB-3b|set-shift|%s" % sub, fn_loc(s, arm["ln"]), s.path,
+                    soft("TAB-3b|set-shift|%s" % sub, fn_loc(s, arm["ln"]), s.path,
                              "set_%s(Some): shifts %s, expected << %d" % (sub, sh, off[K]))
             elif is_none_arm:
                 ok = cleared == (bit[K] | low[K])
                 r.inst("set_%s(None): clears exactly %s_BIT | payload (%#x)" % (sub, K, bit[K] | low[K]),
                        fn_loc(s, arm["ln"]), "ok" if ok else "report")
                 if not ok:
-                    r.report("TAB-3b|set-none|%s" % sub, fn_loc(s, arm["ln"]), s.path,
+                    soft("TAB-3b|set-none|%s" % sub, fn_loc(s, arm["ln"]), s.path,
                              "set_%s(None): clears %#x, expected %#x" % (sub, cleared, bit[K] | low[K]))
         # normalisation: last statement of the body; no early return
         stmts = list(body.get("stmts", []))
@@ -511,7 +531,7 @@ def tab3(ctx):
         ok = last is not None and _is_normalisation(last) and not has_ret
         r.inst("set_%s ends with the Some(0) -> None normalisation on every path" % sub, fn_loc(s), "ok" if ok else "report")
         if not ok:
-            r.report("TAB-3b|set-norm|%s" % sub, fn_loc(s), s.path,
+            soft("TAB-3b|set-norm|%s" % sub, fn_loc(s), s.path,
                      "set_%s does not end with `if matches!(self.0, Some(0)) { self.0 = None }` on all paths" % sub)
     # node dispatch tables
     for fname, pref in (("get_node", "get_"), ("set_node", "set_")):
